@@ -278,10 +278,20 @@ func c13Build(c map[string]any) (*c13Env, error) {
 		path: map[string]string{}}, nil
 }
 
-type c13Reader struct{ r *bytes.Reader } // a body that is neither nil nor http.NoBody, whatever its length
+// a body that is neither nil nor http.NoBody, whatever its length, and that honours Close (like a spooled file or a
+// network stream): reading it after Close fails
+type c13Reader struct {
+	r      *bytes.Reader
+	closed bool
+}
 
-func (b *c13Reader) Read(p []byte) (int, error) { return b.r.Read(p) }
-func (b *c13Reader) Close() error               { return nil }
+func (b *c13Reader) Read(p []byte) (int, error) {
+	if b.closed {
+		return 0, errors.New("http: read on closed body")
+	}
+	return b.r.Read(p)
+}
+func (b *c13Reader) Close() error { b.closed = true; return nil }
 
 func c13Request(c map[string]any, env *c13Env) (*http.Request, []byte, bool) {
 	q := url.Values{}
@@ -323,7 +333,7 @@ func c13Request(c map[string]any, env *c13Env) (*http.Request, []byte, bool) {
 		return req, nil, false
 	}
 	data := []byte(body)
-	req.Body = &c13Reader{bytes.NewReader(data)}
+	req.Body = &c13Reader{r: bytes.NewReader(data)}
 	if jstr(st, "kind") == "pipe" {
 		// a streamed body: net/http knows neither its length nor how to rewind it
 		pr, pw := io.Pipe()
@@ -332,7 +342,7 @@ func c13Request(c map[string]any, env *c13Env) (*http.Request, []byte, bool) {
 	}
 	switch jstr(st, "getBody") {
 	case "ok":
-		req.GetBody = func() (io.ReadCloser, error) { return &c13Reader{bytes.NewReader(data)}, nil }
+		req.GetBody = func() (io.ReadCloser, error) { return &c13Reader{r: bytes.NewReader(data)}, nil }
 	case "fails":
 		req.GetBody = func() (io.ReadCloser, error) { return nil, errors.New("cannot rewind") }
 	}
@@ -405,8 +415,8 @@ func runC13(c0 hx.Case) any {
 			if jbool(a, "reads") {
 				r := ai.RequestValidationInput.Request
 				if r.Body != nil && r.Body != http.NoBody {
-					b, _ := io.ReadAll(r.Body)
-					if !bytes.Equal(b, current) {
+					b, rerr := io.ReadAll(r.Body)
+					if rerr != nil || !bytes.Equal(b, current) {
 						seenFull = false
 					}
 				}
@@ -446,10 +456,9 @@ func runC13(c0 hx.Case) any {
 			current = nil
 		} else {
 			b, rerr := io.ReadAll(req.Body)
-			if rerr != nil {
-				obs["body"] = "readError:" + rerr.Error()
-			}
 			switch {
+			case rerr != nil:
+				obs["body"] = "readError:" + rerr.Error()
 			case hasBody && bytes.Equal(b, orig):
 				obs["body"] = "orig"
 			case len(b) == 0:
@@ -477,7 +486,7 @@ func runC13(c0 hx.Case) any {
 				}
 			}
 			// the next handler has read the body; the same bytes are put back for whoever comes next
-			req.Body = &c13Reader{bytes.NewReader(b)}
+			req.Body = &c13Reader{r: bytes.NewReader(b)}
 			current = b
 		}
 		obs["store"] = c13Store(req, env.path)
